@@ -715,7 +715,7 @@ def extract(repo):
 def render(holds, marks, bb, bm, unknown):
     L = ["(* GENERATED by translator/translate_c01.py from object.rs, value.rs, stack.rs, chunk.rs, memory.rs",
          "   (struct definitions and `impl GcManaged for T` bodies) - do not edit *)",
-         "From Coq Require Import List String Bool.", "From YV Require Import Heap.", "Import ListNotations.", ""]
+         "From Coq Require Import List String Bool.", "From YV Require Import Heap Collect CollectShape.", "Import ListNotations.", ""]
     L.append("Definition holds_gen (k : kind) : list role :=\n  match k with")
     for k in ALL_KINDS:
         L.append("  | %s => [%s]" % (k, "; ".join(holds[k])))
@@ -781,17 +781,254 @@ def alloc_sites(repo):
     return out
 
 
+
+# ------------------------------------------------------------------------------------------
+# the collector ALGORITHM itself (round 7): bodies of GcBox::unmark/mark/blacken and of Heap::collect / mark_roots /
+# trace_references / sweep in memory.rs -> `collector_shape_gen` (theories/CollectShape.v: record collector_shape), which
+# props/C01.v compares with `collector_shape_ref`, the shape Collect.v models (side condition C01_collector_shape).
+# Instrumentation is dropped first: an attribute `#[...]`, the statement following `#[cfg(feature = "verif_hooks")]`, and
+# `if cfg!(feature = "debug_trace_gc") { ... }` blocks.  Closure parameter names and iter()/iter_mut() are normalised.
+# ANYTHING else in these bodies - an early return, a depth / size guard, a wrapper around the recursive call, a bounded loop,
+# a `.take(n)` - is an unrecognised statement: `gen_unknown` entry (C01_translator_complete) and a field of the shape that
+# differs from the reference (C01_collector_shape).
+
+COLLECTOR_FNS = {"GcBox": ["unmark", "mark", "blacken"], "Heap": ["collect", "mark_roots", "trace_references", "sweep"]}
+
+
+def _impl_fns(toks, type_name, names):
+    """bodies (token index ranges, exclusive of the braces) of the named fns of the INHERENT impl of type_name"""
+    out = {}
+    n = len(toks)
+    i = 0
+    while i < n:
+        if toks[i].text == "mod" and i + 2 < n and toks[i + 1].text.startswith("verif") and toks[i + 2].text == "{":
+            i = match_group(toks, i + 2) + 1
+            continue
+        if toks[i].text == "impl":
+            o, c = body_after(toks, i)
+            hdr = [t.text for t in toks[i + 1:o]]
+            if "for" not in hdr and type_name in hdr:
+                j = o + 1
+                while j < c:
+                    if toks[j].text == "fn" and toks[j + 1].text in names:
+                        bo, bc = body_after(toks, j)
+                        out[toks[j + 1].text] = (bo + 1, bc, toks[j].line)
+                        j = bc + 1
+                    elif toks[j].text == "{":
+                        j = match_group(toks, j) + 1
+                    else:
+                        j += 1
+            i = c + 1
+            continue
+        i += 1
+    return out
+
+
+def _strip_instrumentation(toks, lo, hi):
+    """token texts of toks[lo:hi] without attributes, hook statements and debug_trace_gc blocks"""
+    out = []
+    i = lo
+    while i < hi:
+        t = toks[i]
+        if t.text == "#" and i + 1 < hi and toks[i + 1].text == "[":
+            e = match_group(toks, i + 1)
+            attr = [x.text for x in toks[i + 2:e]]
+            i = e + 1
+            if attr[:1] == ["cfg"] and '"verif_hooks"' in attr:
+                # drop the statement / expression statement that follows, up to its `;` at nesting depth 0
+                depth = 0
+                while i < hi:
+                    x = toks[i].text
+                    if x in "([{":
+                        depth += 1
+                    elif x in ")]}":
+                        depth -= 1
+                    i += 1
+                    if x == ";" and depth == 0:
+                        break
+            continue
+        if t.text == "if" and [x.text for x in toks[i + 1:i + 7]] == ["cfg!", "(", "feature", "=", '"debug_trace_gc"', ")"] and toks[i + 7].text == "{":
+            i = match_group(toks, i + 7) + 1
+            continue
+        out.append(t.text)
+        i += 1
+    return out
+
+
+def _normalise(T):
+    """closure parameter names -> v_, iter_mut -> iter"""
+    T = ["iter" if x == "iter_mut" else x for x in T]
+    out = list(T)
+    i = 0
+    while i + 2 < len(out):
+        if out[i] == "|" and out[i + 2] == "|" and out[i + 1].isidentifier():
+            name = out[i + 1]
+            # rename up to the end of the enclosing call (a closure never outlives its argument position here)
+            depth = 0
+            j = i + 3
+            out[i + 1] = "v_"
+            while j < len(out):
+                if out[j] in "([{":
+                    depth += 1
+                elif out[j] in ")]}":
+                    if depth == 0:
+                        break
+                    depth -= 1
+                elif out[j] == name:
+                    out[j] = "v_"
+                j += 1
+            i += 3
+            continue
+        i += 1
+    return out
+
+
+def collector_shape(repo):
+    with open(os.path.join(repo, "yarel", "src", "memory.rs")) as fh:
+        toks = lex(fh.read())
+    unknown = []
+    shape = {"unmark": "Grey", "mark": ("White", "White", False, True), "blacken": ("White", "White", False, True),
+             "roots_unmark_all": False, "root_test_positive": False, "roots_call_mark": False,
+             "trace_filter": "White", "trace_calls_blacken": False, "trace_until_no_grey": False,
+             "sweep_retain": "White", "sweep_counts": "Black", "phases": []}
+    fns = {}
+    for ty, names in COLLECTOR_FNS.items():
+        got = _impl_fns(toks, ty, names)
+        for nm in names:
+            if nm not in got:
+                unknown.append("collector: fn %s::%s not found in memory.rs" % (ty, nm))
+            else:
+                fns[nm] = _normalise(_strip_instrumentation(toks, got[nm][0], got[nm][1]))
+    cols = ("White", "Grey", "Black")
+
+    def bad(fn, T, i):
+        unknown.append("collector: %s has a statement of unrecognised shape: `%s`" % (fn, " ".join(T[i:i + 14])))
+
+    # GcBox::unmark:  self.colour.set(Colour::X);
+    T = fns.get("unmark")
+    if T is not None:
+        if len(T) == 11 and T[:8] == ["self", ".", "colour", ".", "set", "(", "Colour", "::"] and T[8] in cols and T[9:] == [")", ";"]:
+            shape["unmark"] = T[8]
+        else:
+            bad("GcBox::unmark", T, 0)
+    # GcBox::mark / blacken:  if self.colour.replace(Colour::X) == Colour::Y { return; }  self.data.OP();
+    for fn in ("mark", "blacken"):
+        T = fns.get(fn)
+        if T is None:
+            continue
+        head = ["if", "self", ".", "colour", ".", "replace", "(", "Colour", "::"]
+        ok = (len(T) >= 19 and T[:9] == head and T[9] in cols and T[10:14] == [")", "==", "Colour", "::"] and T[14] in cols
+              and T[15:19] == ["{", "return", ";", "}"])
+        if not ok:
+            bad("GcBox::" + fn, T, 0)
+            continue
+        rest = T[19:]
+        fwd = rest[:7] == ["self", ".", "data", ".", fn, "(", ")"] and rest[7:8] == [";"]
+        guarded = not (fwd and len(rest) == 8)
+        if guarded:
+            bad("GcBox::" + fn, rest, 0 if not fwd else 8)
+        shape[fn] = (T[14], T[9], fwd, guarded)
+    # Heap::mark_roots
+    T = fns.get("mark_roots")
+    if T is not None:
+        s1 = ["self", ".", "objects", ".", "iter", "(", ")", ".", "for_each", "(", "|", "v_", "|", "v_", ".", "unmark", "(", ")", ")", ";"]
+        s2 = ["self", ".", "objects", ".", "iter", "(", ")", ".", "for_each", "(", "|", "v_", "|", "{",
+              "if", "v_", ".", "num_roots", ".", "get", "(", ")", ">", "0", "{", "v_", ".", "mark", "(", ")", ";", "}", "}", ")", ";"]
+        if T == s1 + s2:
+            shape["roots_unmark_all"] = shape["root_test_positive"] = shape["roots_call_mark"] = True
+        else:
+            k = 0
+            while k < min(len(T), len(s1 + s2)) and T[k] == (s1 + s2)[k]:
+                k += 1
+            shape["roots_unmark_all"] = T[:len(s1)] == s1
+            bad("Heap::mark_roots", T, max(0, k - 4))
+    # Heap::trace_references
+    T = fns.get("trace_references")
+    if T is not None:
+        cnt = ["self", ".", "objects", ".", "iter", "(", ")", ".", "filter", "(", "|", "v_", "|", "v_", ".", "colour", ".", "get", "(", ")", "==", "Colour", "::", "C_", ")"]
+
+        def with_col(seq, c):
+            return [c if x == "C_" else x for x in seq]
+        ci = 4 + cnt.index("C_")
+        c = T[ci] if len(T) > ci and T[ci] in cols else None
+        s1 = ["let", "mut", "num_greys", "="] + with_col(cnt, c or "?") + [".", "count", "(", ")", ";"]
+        s2 = (["while", "num_greys", ">", "0", "{", "num_greys", "="] + with_col(cnt, c or "?") +
+              [".", "map", "(", "|", "v_", "|", "v_", ".", "blacken", "(", ")", ")", ".", "count", "(", ")", ";", "}"])
+        if c and T == s1 + s2:
+            shape["trace_filter"] = c
+            shape["trace_calls_blacken"] = shape["trace_until_no_grey"] = True
+        else:
+            k = 0
+            while k < min(len(T), len(s1 + s2)) and T[k] == (s1 + s2)[k]:
+                k += 1
+            bad("Heap::trace_references", T, max(0, k - 4))
+    # Heap::sweep: exactly one retain(|v| v.colour.get() == Colour::X) on self.objects, nothing else mutates self.objects
+    T = fns.get("sweep")
+    if T is not None:
+        retain = ["self", ".", "objects", ".", "retain", "(", "|", "v_", "|", "v_", ".", "colour", ".", "get", "(", ")", "==", "Colour", "::"]
+        hits = [i for i in range(len(T)) if T[i:i + len(retain)] == retain]
+        uses = [i for i in range(len(T)) if T[i:i + 4] == ["self", ".", "objects", "."]]
+        other = [i for i in uses if T[i + 4] not in ("iter", "retain")]
+        if len(hits) == 1 and T[hits[0] + len(retain)] in cols and T[hits[0] + len(retain) + 1:hits[0] + len(retain) + 3] == [")", ";"] and not other \
+                and "return" not in T and "take" not in T and "break" not in T:
+            shape["sweep_retain"] = T[hits[0] + len(retain)]
+        else:
+            bad("Heap::sweep", T, (other or hits or [0])[0])
+        flt = ["filter", "(", "|", "v_", "|", "v_", ".", "colour", ".", "get", "(", ")", "==", "Colour", "::"]
+        fh = [i for i in range(len(T)) if T[i:i + len(flt)] == flt]
+        if len(fh) == 1 and T[fh[0] + len(flt)] in cols:
+            shape["sweep_counts"] = T[fh[0] + len(flt)]
+    # Heap::collect: the three phases in order, each exactly once, no other call on self, no conditional around them
+    T = fns.get("collect")
+    if T is not None:
+        calls = [T[i + 2] for i in range(len(T) - 3) if T[i:i + 2] == ["self", "."] and T[i + 3] == "("]
+        shape["phases"] = [c for c in calls if c in ("mark_roots", "trace_references", "sweep")]
+        depth = 0
+        nested = []
+        for i, x in enumerate(T):
+            if x == "{":
+                depth += 1
+            elif x == "}":
+                depth -= 1
+            elif x == "self" and T[i + 1] == "." and i + 3 < len(T) and T[i + 3] == "(" and depth > 0:
+                nested.append(T[i + 2])
+        extra = [c for c in calls if c not in ("mark_roots", "trace_references", "sweep")]
+        if extra or nested or "return" in T:
+            bad("Heap::collect", T, 0)
+            unknown[-1] += " (calls %s, conditional calls %s)" % (extra, nested)
+    return shape, unknown
+
+
+def render_shape(shape):
+    def b(x):
+        return "true" if x else "false"
+
+    def boxfn(t):
+        return "mkBoxFn %s %s %s %s" % (t[0], t[1], b(t[2]), b(t[3]))
+    ph = {"mark_roots": "PMarkRoots", "trace_references": "PTrace", "sweep": "PSweep"}
+    return ("(* the collector algorithm as read from memory.rs (GcBox::unmark/mark/blacken, Heap::collect/mark_roots/trace_references/sweep) *)\n"
+            "Definition collector_shape_gen : collector_shape :=\n"
+            "  mkCollectorShape %s (%s) (%s)\n    %s %s %s\n    %s %s %s\n    %s %s [%s].\n" % (
+                shape["unmark"], boxfn(shape["mark"]), boxfn(shape["blacken"]),
+                b(shape["roots_unmark_all"]), b(shape["root_test_positive"]), b(shape["roots_call_mark"]),
+                shape["trace_filter"], b(shape["trace_calls_blacken"]), b(shape["trace_until_no_grey"]),
+                shape["sweep_retain"], shape["sweep_counts"], "; ".join(ph[x] for x in shape["phases"])))
+
+
 def gen_gctables(man):
     repo = os.environ.get("VERIF_REPO", "/repo")
     holds, marks, bb, bm, unknown, detail = extract(repo)
+    shape, unknown2 = collector_shape(repo)
+    unknown = unknown + unknown2
     man["gc_tables"] = {
+        "collector_shape": {k: (list(v) if isinstance(v, tuple) else v) for k, v in shape.items()},
         "unknown": unknown, "per_type": detail,
         "marks": {k: sorted(v) for k, v in marks.items() if v},
         "blackens_mark": {k: sorted(v) for k, v in bm.items() if v},
         "holds": {k: v for k, v in holds.items()},
         "alloc_sites": alloc_sites(repo),
     }
-    return render(holds, marks, bb, bm, unknown)
+    return render(holds, marks, bb, bm, unknown) + "\n" + render_shape(shape)
 
 
 GENERATORS = {"GcTables.v": gen_gctables}
